@@ -7,6 +7,11 @@ ENV = "GOFLAGS=-mod=mod GOPROXY=off GOSUMDB=off GOTOOLCHAIN=local GOWORK=off"
 
 # technique per property (the explanation / assumptions come from the checker itself: bin/nplint -list)
 TECH = {
+    "C01": "guard facts (no mutation before the length check), must-precede of the accounting primitive, who-may-write table for the length, must-pass-through on MallocAck with relational path facts",
+    "C02": "escape analysis of node memory within the Reader methods + must-precede of the exposure mark, who-may-free table, field-sensitive block-sharing rule, reference-count shape facts",
+    "C03": "who-may-call tables for the pool primitives, ownership guard facts in node.Release, value-origin query for caller memory / cached blocks, constant-agreement fact malloc vs free",
+    "C04": "value plumbing of syscall counts into Ack callbacks (same-SSA-value rule), must-follow of Ack after every I/O call, single-producer who-may-call table, borrowed hand-off / drain rules of C08, C10, C11",
+    "C16": "must-pass-through (ack and flush after every source read incl. error exits), same-value plumbing of read/accepted counts, guard facts, error mapping fact",
     "C05": "typestate over CAS key-locks, must-pass-through and guard-fact queries on go/ssa, bottom-up may/must effect summaries, who-may-call tables",
     "C06": "typestate (processing lock) + unlock->re-read->relock hand-off as must-pass-through queries; publish-before-try dominance",
     "C07": "publish-then-check dominance, guard facts on the closing state, select/timer case edges, error-constant per branch, nil-guard facts",
